@@ -152,16 +152,20 @@ class HTTP(BaseComponent):
         res.prepare()
         self.fire(write(sock, b'%s%s' % (bytes(res), bytes(headers))))
 
-        if req.method == 'HEAD':
-            return
-        if res.stream and res.body:
+        # HEAD, 1xx, 204 and 304 responses have no message body
+        no_body = req.method == 'HEAD' or res.status < 200 or res.status in (204, 304)
+        if res.stream and res.body and not no_body:
             try:
                 data = next(res.body)
+                while not data:  # Skip over any null byte sequences
+                    data = next(res.body)
             except StopIteration:
                 data = None
             self.fire(stream(res, data))
         else:
-            if isinstance(res.body, bytes):
+            if no_body:
+                body = b''
+            elif isinstance(res.body, bytes):
                 body = res.body
             elif isinstance(res.body, str):
                 body = res.body.encode(self._encoding)
@@ -184,7 +188,7 @@ class HTTP(BaseComponent):
                 if res.chunked:
                     self.fire(write(sock, b'0\r\n\r\n'))
 
-            if not res.stream:
+            if not res.stream or no_body:
                 if res.close:
                     self.fire(close(sock))
                 # Delete the request/response objects if present
